@@ -11,7 +11,7 @@ from __future__ import annotations
 import astgen
 import sqltie
 import t2tie
-from common import Check, rng, tier
+from common import Check, load_known, rng, tier
 
 POOLS = {
     "fresh": lambda i, d: "zz%d" % i,
@@ -33,6 +33,7 @@ def main() -> int:
     r = rng("c08")
     spec_failures, disagreements = [], []
     dist = {"statements": 0, "with_locals": 0, "pools": {}, "per_dialect": {}, "rejected_by_parser": 0}
+    known_c08 = {}
     n = 70 if quick else 2000
     stmts = astgen.gen_batch(r, n, (1, 2, 2), shapes=20 if quick else 300)
     stmts = [s for s in stmts if astgen.local_names(s)]
@@ -174,6 +175,41 @@ def main() -> int:
                 spec_failures.append({"suite": "metamorphic-rename", "dialect": d, "pool": "several-stars",
                                       "original_sql": first[t][0], "renamed_sql": c, "original_result": first[t][1], "renamed_result": g,
                                       "spec": "renaming statement-local names (or adding/removing AS) leaves tables and end-to-end column pairs unchanged"})
+        # a table alias with a derived column list: tab [AS] a (c1, c2) - the alias names the table whatever it is called and
+        # whether or not AS is written.  Without AS the unchanged code takes the column list for the alias (recorded K-C08-1).
+        if d in ("ansi", "postgres", "snowflake", "sparksql") or not quick:
+            templ_c = [("insert into tgt select {A}.c1 from tab {AS}{A} (c1, c2)", "R=<default>.tab;W=<default>.tgt#<default>.tab.c1><default>.tgt.c1"),
+                       ("insert into tgt select {A}.c1, u.k from s1.tab {AS}{A} (c1, c2) join u on 1 = 1",
+                        "R=<default>.u,s1.tab;W=<default>.tgt#<default>.u.k><default>.tgt.k;s1.tab.c1><default>.tgt.c1"),
+                       ("insert into tgt with c as (select x from t1) select {A}.c1 from c {AS}{A} (c1)", None)]
+            cases_c = [(t, w, asw, a, t.replace("{AS}", asw).replace("{A}", a)) for t, w in templ_c for asw in ("as ", "") for a in ("a", "zz", "tab2", "b1")]
+            got5 = t2tie.summaries([{"sql": c[4], "dialect": d, "metadata": None, "config": {}} for c in cases_c])
+            first_c = {}
+            for (t, want, asw, a, c), g in zip(cases_c, got5):
+                ck.count()
+                dist["pools"]["alias-with-column-list"] = dist["pools"].get("alias-with-column-list", 0) + 1
+                if g.startswith("ERR:InvalidSyntax"):
+                    dist["rejected_by_parser"] += 1
+                    continue
+                ck.nontriv((d, "alias-with-column-list", c))
+                case = {"suite": "metamorphic-rename", "dialect": d, "pool": "alias-with-column-list", "sql": c, "result": g}
+                if asw == "":
+                    # recorded defect: the reference a.c1 is attributed to a table called like the alias
+                    if want is not None and g == want:
+                        continue                 # repaired
+                    if ("<default>.%s.c1>" % a) in g or want is None:
+                        known_c08.setdefault("K-C08-1", case)
+                        continue
+                    spec_failures.append(dict(case, spec=want))
+                    continue
+                if want is not None and g != want:
+                    spec_failures.append(dict(case, spec=want, detail="the alias names the table: a column qualified by it is a column of that table"))
+                key = (t, asw)
+                if key not in first_c:
+                    first_c[key] = (c, g)
+                elif first_c[key][1] != g:
+                    spec_failures.append(dict(case, original_sql=first_c[key][0], original_result=first_c[key][1],
+                                              spec="renaming statement-local names leaves tables and end-to-end column pairs unchanged"))
         # tie on a renamed variant
         recs = []
         for s in stmts[: (40 if quick else 300)]:
@@ -189,6 +225,12 @@ def main() -> int:
         dist["statements"] += len(stmts)
     ck.sample({"original": astgen.to_sql(stmts[0]),
                "renamed": astgen.to_sql(stmts[0], astgen.Opts(rename={nm: POOLS["quoted-upper"](i, "ansi") for i, nm in enumerate(sorted(astgen.local_names(stmts[0])))}))})
+    kn = {f["id"]: f for f in load_known() if f["property"] == "C08" and f["status"] == "known"}
+    for kid, case in known_c08.items():
+        if kid in kn:
+            ck.known(kid, kn[kid]["what"] + " (e.g. %r -> %s)" % (case["sql"], case["result"][:120]))
+        else:
+            spec_failures.append(dict(case, spec="class %s is not recorded" % kid))
     ck.notes["input_distribution"] = dist
     ck.conclude(spec_failures, disagreements, proofs_ok,
                 "correspondence T2 (renamed text) between Tree/*.v and sqllineage/core/parser/sqlfluff",
